@@ -185,6 +185,14 @@ fn check_doc(v: &O, xml: &str, ref_peak: usize, total_events: usize, slack: &mut
     }
     n += 1;
     // the copying deserializer (from_reader) has its own replay path: same verdicts at the decisive limits
+    // the largest limits must behave like no limit at all ("raising the limit never turns success into failure")
+    for huge in [usize::MAX, usize::MAX - 1, usize::MAX / 2] {
+        n += 1;
+        match deserialize(xml, Some(huge))? {
+            Ok(got) if got == *v => {}
+            other => return Err(format!("with event_buffer_size({}) the document deserializes as {:?}", huge, other)),
+        }
+    }
     for limit in [None, Some(ref_peak.max(1)), Some(ref_peak.max(2) - 1)] {
         n += 1;
         let a = deserialize(xml, limit)?;
@@ -301,6 +309,7 @@ pub fn run(ctx: &Ctx) {
     });
     count_layer(ctx);
     nil_layer(ctx);
+    value_layer(ctx);
 }
 
 /// Size thresholds of the replay queues: long lists. The decisive limits only.
@@ -494,6 +503,73 @@ fn nil_layer(ctx: &Ctx) {
     });
 }
 
+/// A scalar `$value` enum field next to list fields: its element is skipped and replayed like any other
+/// sibling when it follows a list item.
+#[derive(Serialize, Deserialize, PartialEq, Debug, Clone)]
+pub enum Pick {
+    Alpha,
+    Beta,
+}
+#[derive(Serialize, Deserialize, PartialEq, Debug, Clone)]
+pub struct WithValue {
+    #[serde(default)]
+    pub a: Vec<String>,
+    #[serde(default)]
+    pub c: Vec<()>,
+    #[serde(rename = "$value")]
+    pub v: Pick,
+}
+
+fn value_layer(ctx: &Ctx) {
+    let total = 4 * 3 * 2;
+    ctx.layer("value_enum_position", 3, total, json!({"type": "{a: Vec<String>, c: Vec<()>, $value: enum {Alpha, Beta}}", "a_items": "0..=3", "c_items": "0..=2", "positions": "the variant element at every position of every interleaving of the a and c items", "limits": ["none", 1000]}), |i, acc| {
+        let na = (i % 4) as usize;
+        let nc = ((i / 4) % 3) as usize;
+        let pick = if i / 12 == 0 { Pick::Alpha } else { Pick::Beta };
+        let ga: Vec<Child> = (0..na).map(|k| leaf('a', &format!("x{}", k))).collect();
+        let gc: Vec<Child> = (0..nc).map(|_| leaf('c', "")).collect();
+        let want = WithValue { a: (0..na).map(|k| format!("x{}", k)).collect(), c: vec![(); nc], v: pick.clone() };
+        let elem = if pick == Pick::Alpha { "<Alpha/>" } else { "<Beta></Beta>" };
+        for kids in interleavings(&[ga.clone(), gc.clone()]) {
+            for pos in 0..=kids.len() {
+                let mut xml = String::from("<r>");
+                for (k, ch) in kids.iter().enumerate() {
+                    if k == pos {
+                        xml.push_str(elem);
+                    }
+                    xml.push_str(&ch.xml);
+                }
+                if pos == kids.len() {
+                    xml.push_str(elem);
+                }
+                xml.push_str("</r>");
+                for limit in [None, NonZeroUsize::new(1000)] {
+                    for via_reader in [false, true] {
+                        acc.evaluations += 1;
+                        acc.transitions += 1;
+                        let got = guarded(|| {
+                            if via_reader {
+                                let mut de = Deserializer::from_reader(xml.as_bytes());
+                                de.event_buffer_size(limit);
+                                WithValue::deserialize(&mut de).map_err(|e| format!("{:?}", e))
+                            } else {
+                                let mut de = Deserializer::from_str(&xml);
+                                de.event_buffer_size(limit);
+                                WithValue::deserialize(&mut de).map_err(|e| format!("{:?}", e))
+                            }
+                        });
+                        match got {
+                            Ok(Ok(v)) if v == want => acc.nt_count += 1,
+                            other => acc.violation((3, i), format!("document {:?} ({}, limit {:?}) deserializes as {:?}, expected {:?}", xml, if via_reader { "from_reader" } else { "from_str" }, limit, other, want), json!({"value_doc": xml})),
+                        }
+                    }
+                }
+                acc.traces += 1;
+            }
+        }
+    });
+}
+
 fn count_layer(ctx: &Ctx) {
     let t = ctx.tier;
     let ns: Vec<u32> = crate::inputs::size_list(t.pick(24, 80), t.pick(12, 16));
@@ -519,6 +595,11 @@ fn count_layer(ctx: &Ctx) {
 }
 
 pub fn replay(case: &Value) -> Result<(), String> {
+    if let Some(doc) = case.get("value_doc").and_then(|d| d.as_str()) {
+        let r = quick_xml::de::from_str::<WithValue>(doc);
+        println!("document {:?}\nfrom_str => {:?}", doc, r);
+        return r.map(|_| ()).map_err(|e| format!("{:?}", e));
+    }
     if let Some(doc) = case.get("nil_doc").and_then(|d| d.as_str()) {
         let r = quick_xml::de::from_str::<WithNil>(doc);
         println!("document {:?}\nfrom_str => {:?}", doc, r);
